@@ -5,15 +5,36 @@ From PM.proofs Require Import Crc_proofs FrB_witness_proofs FrB_rtu_proofs FrB_b
 Open Scope list_scope.
 Open Scope N_scope.
 
-(* RTU, once synchronised (empty buffer; header {} or the initial dict): every valid frame, one
-   per read, is delivered by its own read and the receiver is synchronised again — for any
-   number of frames *)
-Theorem C11_rtu_after_sync : forall cfg (frames : list (N * bytes)) st,
+(* RTU RECOVERY / BACKLOG BOUND, request direction (ServerDecoder table), for EVERY buffer content
+   (any garbage, any number of frames per read) and every pending header whose length is at most
+   268: a call that returns normally leaves fewer than 268 = 255 + 10 + 3 bytes buffered (the
+   largest extent the request-table size oracle can return; less than two maximum-size frames)
+   and a bounded header again.  So a candidate frame never waits for more than 268 bytes — it is
+   delivered (justified: C07_gate_rtu), skipped, or dropped with what is behind it — and the
+   backlog never exceeds 267 bytes however the traffic arrives.  After an exception the serial
+   handlers reset the framer (empty buffer, empty header: bounded). *)
+Theorem C11_recover_rtu : forall cfg st chunk st' ds,
+  cf_rules cfg = server_decoder -> wfb (r_buf st ++ chunk) = true -> hdr_bounded (r_hdr st) ->
+  rtu_recv cfg st chunk = (st', ds, FOk) -> (zlen (r_buf st') < 268)%Z /\ hdr_bounded (r_hdr st').
+Proof. exact rtu_recover_server. Qed.
+Print Assumptions C11_recover_rtu.
+
+(* the header hypothesis holds initially and after a reset (and is re-established by every call) *)
+Theorem C11_rtu_header_bounded : hdr_bounded (r_hdr rtu_init) /\ hdr_bounded hdr_empty.
+Proof. split; [exact hdr_bounded_init|exact hdr_bounded_empty]. Qed.
+Print Assumptions C11_rtu_header_bounded.
+
+(* the bound is specific to the request table: on the response table it is refuted
+   (C11_rtu_fifo_refuted: 16 MB extent; C06_rtu_mei_refuted: KeyError for ever) *)
+
+(* RTU, once synchronised (empty buffer; header {} or the initial dict): valid frames arriving in
+   ANY grouping (one per read, several per read, cut anywhere) are all delivered, those of units
+   not served are skipped, no call raises *)
+Theorem C11_rtu_after_sync : forall cfg chunks (R : list frame) st,
   r_buf st = [] -> (r_hdr st = hdr_empty \/ r_hdr st = r_hdr rtu_init) ->
-  Forall (fun f => valid_frame cfg (fst f) (snd f)) frames ->
-  rtu_feed_dels cfg st (map (fun f => spec_adu_rtu (fst f) (snd f)) frames) =
-    (map (fun f => (snd f, Z.of_N (fst f))) frames, map (fun _ => FOk) frames).
-Proof. exact rtu_one_per_read. Qed.
+  Forall (vf cfg) R -> concat chunks = stream R ->
+  rtu_feed_dels cfg st chunks = (msgs R, map (fun _ => FOk) chunks).
+Proof. exact rtu_chunked_sync. Qed.
 Print Assumptions C11_rtu_after_sync.
 
 (* RTU resynchronisation step: whenever checkFrame rejects (False), either the buffer is untouched
@@ -23,34 +44,6 @@ Theorem C11_rtu_bad_crc_resyncs : forall cfg st st2, rtu_check cfg st = (st2, Ok
   (r_buf st2 = [] /\ r_hdr st2 = hdr_empty) \/ r_buf st2 = r_buf st.
 Proof. exact rtu_check_false_resets. Qed.
 Print Assumptions C11_rtu_bad_crc_resyncs.
-
-(* RTU RECOVERY BOUND, request direction (ServerDecoder table), for EVERY buffer content (any
-   garbage) and every pending header whose length is at most 268: once 268 = 255 + 10 + 3 bytes
-   are buffered (the largest extent the request-table size oracle can return) a call cannot keep
-   waiting: it raises (the serial handlers then reset the framer), or drops everything and is
-   synchronised, or delivers one message (justified: C07_gate_rtu) consuming at least 4 bytes and
-   leaving an empty header.  268 bytes is at most two maximum-size frames (2 x 256) of traffic. *)
-Theorem C11_recover_rtu : forall cfg st chunk st' ds x,
-  cf_rules cfg = server_decoder -> wfb (r_buf st ++ chunk) = true -> hdr_bounded (r_hdr st) ->
-  (268 <= zlen (r_buf st ++ chunk))%Z ->
-  rtu_recv cfg st chunk = (st', ds, x) ->
-  x <> FOk \/
-  (r_buf st' = [] /\ r_hdr st' = hdr_empty /\ ds = []) \/
-  (exists d, ds = [d] /\ r_hdr st' = hdr_empty /\ (zlen (r_buf st') + 4 <= zlen (r_buf st ++ chunk))%Z).
-Proof. exact rtu_recover_server. Qed.
-Print Assumptions C11_recover_rtu.
-
-(* its header hypothesis is an invariant: true initially, after a reset, and after every call
-   that returns normally *)
-Theorem C11_rtu_header_bounded : hdr_bounded (r_hdr rtu_init) /\ hdr_bounded hdr_empty /\
-  forall cfg st chunk st' ds,
-    cf_rules cfg = server_decoder -> wfb (r_buf st ++ chunk) = true -> hdr_bounded (r_hdr st) ->
-    rtu_recv cfg st chunk = (st', ds, FOk) -> hdr_bounded (r_hdr st').
-Proof. split; [exact hdr_bounded_init|]. split; [exact hdr_bounded_empty|]. exact rtu_recv_hdr_bounded. Qed.
-Print Assumptions C11_rtu_header_bounded.
-
-(* the bound is specific to the request table: on the response table it is refuted
-   (C11_rtu_fifo_refuted: 16 MB extent; C06_rtu_mei_refuted: KeyError for ever) *)
 
 (* binary, partial: from any state with an empty buffer, delimiter-free valid frames, one per
    read, are each delivered by their own read (any number of them) *)
@@ -94,11 +87,12 @@ Theorem C11_rtu_fifo_refuted :
 Proof. exact rtu_fifo_size_witness. Qed.
 Print Assumptions C11_rtu_fifo_refuted.
 
-(* RTU: refuted — several frames per read: the backlog grows without bound
-   (finding F-C11-rtu-backlog-several-per-read) *)
-Theorem C11_rtu_backlog_refuted :
+(* formerly refuted, now FIXED in /repo (finding F-C11-rtu-backlog-several-per-read, status fixed):
+   several frames per read are all consumed by that read *)
+Theorem C11_rtu_no_backlog_fixed :
   let f := spec_adu_rtu 1 pdu_a in
   map (fun n => length (r_buf (fst (fst (rtu_feed cfg_server rtu_init (repeat (f ++ f) n))))))
-      [1; 2; 3; 4; 5]%nat = [8; 16; 24; 32; 40]%nat.
-Proof. exact rtu_backlog_growth_witness. Qed.
-Print Assumptions C11_rtu_backlog_refuted.
+      [1; 2; 3; 4; 5]%nat = [0; 0; 0; 0; 0]%nat /\
+  length (deliveries (rtu_feed cfg_server rtu_init (repeat (f ++ f) 5))) = 10%nat.
+Proof. exact rtu_no_backlog_fixed_witness. Qed.
+Print Assumptions C11_rtu_no_backlog_fixed.
